@@ -135,6 +135,16 @@ func New(o Options) *H {
 	if err != nil {
 		panic(err)
 	}
+	// GenesisStateWithValSet rebuilds the bank genesis from scratch and thereby drops the
+	// custom bank DefaultGenesis (uvrise send-disabled, denom metadata): put both back.
+	{
+		var custom, cur banktypes.GenesisState
+		a.AppCodec().MustUnmarshalJSON(mm.Modules["bank"].(interface{ DefaultGenesis() json.RawMessage }).DefaultGenesis(), &custom)
+		a.AppCodec().MustUnmarshalJSON(gs["bank"], &cur)
+		cur.SendEnabled = custom.SendEnabled
+		cur.DenomMetadata = custom.DenomMetadata
+		gs["bank"] = a.AppCodec().MustMarshalJSON(&cur)
+	}
 	if o.Mutate != nil {
 		o.Mutate(gs, a)
 	}
